@@ -249,6 +249,30 @@ theorem clientCert_expected_iff (v : Nat) (c s : Caps) (k : KeyType) :
 example : clientCertOk 0x0303 ⟨[], [], [257], [], []⟩ ⟨[], [], [23, 257], [], []⟩ (.ecdsa 23) = false := by decide
 example : clientCertOk 0x0304 ⟨[], [], [29], [], []⟩ ⟨[], [], [29], [], []⟩ (.ecdsa 23) = true := by decide
 
+/-- A client CertificateVerify is expected to be possible in TLS 1.2 / 1.3 iff some signature scheme
+    listed by both sides fits the client key (for ECDSA in TLS 1.2: any hash, smaller than, equal to
+    or larger than the curve; in TLS 1.3: the hash bound to the curve). -/
+theorem clientSig_expected_iff (v : Nat) (c s : Caps) (k : KeyType) (hv : v = tls12 ∨ v = tls13) :
+    clientSigOk v c s k = true ↔
+      ∃ x, x ∈ c.sigs ∧ x ∈ s.sigs ∧ (if v = tls13 then sigFits13 k x else sigFits12 k x) = true := by
+  unfold clientSigOk
+  cases hv with
+  | inl h =>
+    subst h
+    have h1 : (tls12 == tls13) = false := by decide
+    have h2 : (tls12 == tls12) = true := by decide
+    have h3 : ¬ (tls12 = tls13) := by decide
+    simp only [h1, h2, h3, if_true, if_false, Bool.false_eq_true, any_common_iff]
+  | inr h =>
+    subst h
+    have h1 : (tls13 == tls13) = true := by decide
+    simp only [h1, if_true, any_common_iff]
+
+-- a P-256 key signs with SHA-384 / SHA-512 in TLS 1.2 (hash larger than the curve), not in TLS 1.3
+example : clientSigOk 0x0303 ⟨[], [], [], [0x0403, 0x0503, 0x0603], []⟩ ⟨[], [], [], [0x0603], []⟩ (.ecdsa 23) = true := by decide
+example : clientSigOk 0x0304 ⟨[], [], [], [0x0403, 0x0503, 0x0603], []⟩ ⟨[], [], [], [0x0603], []⟩ (.ecdsa 23) = false := by decide
+example : clientSigOk 0x0303 ⟨[], [], [], [0x0401, 0x0804], []⟩ ⟨[], [], [], [0x0809], []⟩ .rsa = false := by decide
+
 /-- ALPN: a protocol is expected-selectable iff both sides list it. -/
 theorem expectedAlpn_in_both (cp sp : List String) (p : String) :
     p ∈ expectedAlpn cp sp ↔ p ∈ cp ∧ p ∈ sp := by
